@@ -1,5 +1,7 @@
 // zkexec: executes scenarios on the real zerokit code and records traces for the TLA+ judges.
 mod cfg_exec;
+#[cfg(not(feature = "stateless"))]
+mod conc_exec;
 mod intern;
 #[cfg(not(feature = "stateless"))]
 mod ffi_exec;
@@ -35,6 +37,20 @@ fn main() {
     match args[1].as_str() {
         "tree" => cmd_tree(&args),
         "cfgrun" => cmd_cfgrun(&args),
+        #[cfg(not(feature = "stateless"))]
+        "conc" => {
+            let mut out = Vec::new();
+            let seed: u64 = arg(&args, "--seed").unwrap_or("1").parse().unwrap();
+            match arg(&args, "--mode").expect("--mode") {
+                "pool" => conc_exec::pool(seed, arg(&args, "--msg-in"), arg(&args, "--msg-out"), &mut out),
+                "shared" => conc_exec::shared(seed, arg(&args, "--threads").unwrap_or("16").parse().unwrap(),
+                                              arg(&args, "--calls").unwrap_or("50").parse().unwrap(), &mut out),
+                #[cfg(feature = "pmtree")]
+                "reopen" => conc_exec::reopen(arg(&args, "--dir").expect("--dir"), arg(&args, "--n").unwrap_or("20").parse().unwrap(), &mut out),
+                m => panic!("unknown mode {m}"),
+            }
+            write_ndjson(arg(&args, "--out").expect("--out"), &out);
+        }
         #[cfg(not(feature = "stateless"))]
         "rln" => cmd_rln(&args),
         #[cfg(not(feature = "stateless"))]
